@@ -6,6 +6,7 @@
 #include <stdint.h>
 #include <stdio.h>
 #include <ucontext.h>
+#include <setjmp.h>
 #include <pthread.h>
 #include <vector>
 
@@ -42,6 +43,7 @@ struct Block { uintptr_t p; size_t n; };
 
 struct Fibre {
 	ucontext_t ctx;
+	jmp_buf jb; int jb_valid;      /* after its first entry a fibre is resumed with _longjmp: swapcontext costs two sigprocmask system calls per switch */
 	int tid;
 	FState st;
 	uintptr_t waddr;
